@@ -908,14 +908,18 @@ func (m *Model) Listing(fd int32) (Expect, map[string]bool) {
 	if !d.Ino.Dir {
 		return fail("not a directory"), nil
 	}
-	if !d.NameValid() {
-		return unspec("directory descriptor whose name drifted or whose directory was removed"), nil
-	}
 	r := map[string]bool{}
 	for n, i := range d.Ino.Ents {
 		r[n] = i.Dir
 	}
 	d.Lists++
+	if !d.NameValid() {
+		// The directory was renamed or removed since the descriptor was opened. The
+		// descriptor still names that directory: reading it may fail (wazero re-opens a
+		// directory by name for its first read and answers ENOENT), but if it succeeds it
+		// lists that directory, never another one that took over the name.
+		return Expect{Either: true, Why: "directory renamed/removed since open: may fail, must not list another directory"}, r
+	}
 	return ok(), r
 }
 
